@@ -237,6 +237,10 @@ func (e *Env) segsTerm(segs []Seg) string {
 			facts = append(facts, tApp(">", tApp("slen", t), "0"))
 		}
 		facts = append(facts, tNot(tEq(t, "nilStr")))
+		if len(segs) == 1 && segs[0].K == "be64" {
+			// big-endian decoding inverts encoding
+			facts = append(facts, tEq(e.D.uf("be2u64", []string{sStr}, bvSort(64), t), segs[0].T))
+		}
 		e.termFacts[t] = facts
 	}
 	return t
@@ -286,12 +290,30 @@ func (e *Env) segsEqual(a, b []Seg, _ bool) (string, bool) {
 }
 
 func (e *Env) segsEqualH(a, b []Seg) (formula string, hyps []string, ok bool) {
+	return e.segsRel(a, b, false)
+}
+
+// segsHasPrefixH decides "b is a prefix of a".
+func (e *Env) segsHasPrefixH(a, b []Seg) (formula string, hyps []string, ok bool) {
+	return e.segsRel(a, b, true)
+}
+
+func (e *Env) segsRel(a, b []Seg, prefixMode bool) (formula string, hyps []string, ok bool) {
 	var conj []string
 	a = append([]Seg(nil), a...)
 	b = append([]Seg(nil), b...)
 	for iter := 0; iter < 200; iter++ {
 		if len(a) == 0 && len(b) == 0 {
 			return tAnd(conj...), hyps, true
+		}
+		if prefixMode && len(b) == 0 {
+			return tAnd(conj...), hyps, true
+		}
+		if prefixMode && len(b) == 1 && b[0].K == "lit" && len(a) > 0 && a[0].K == "lit" && len(a[0].Lit) >= len(b[0].Lit) {
+			if strings.HasPrefix(a[0].Lit, b[0].Lit) {
+				return tAnd(conj...), hyps, true
+			}
+			return "false", hyps, true
 		}
 		if len(a) == 0 || len(b) == 0 {
 			rest := a
@@ -541,6 +563,31 @@ func (e *Env) keyAxioms(body string) []string {
 			out = append(out, tImplies(tAnd(hyps...), ax))
 		}
 	}
+	// prefix facts for frames of prefix stores
+	if strings.Contains(body, "(hasprefix ") {
+		for _, t := range present {
+			for _, pfx := range present {
+				if !strings.Contains(body, "(hasprefix "+t+" "+pfx+")") && !strings.Contains(body, " "+pfx+")") {
+					continue
+				}
+				f, hyps, ok := e.segsHasPrefixH(e.keyTerms[t], e.keyTerms[pfx])
+				if !ok {
+					continue
+				}
+				out = append(out, tImplies(tAnd(hyps...), tEq(tApp("hasprefix", t, pfx), f)))
+			}
+			for _, content := range litsPresent {
+				// literal prefixes and literal keys
+				name := e.D.lits[content]
+				if f, hyps, ok := e.segsHasPrefixH(e.keyTerms[t], litSegs(content)); ok {
+					out = append(out, tImplies(tAnd(hyps...), tEq(tApp("hasprefix", t, name), f)))
+				}
+				if f, hyps, ok := e.segsHasPrefixH(litSegs(content), e.keyTerms[t]); ok {
+					out = append(out, tImplies(tAnd(hyps...), tEq(tApp("hasprefix", name, t), f)))
+				}
+			}
+		}
+	}
 	// drop facts mentioning quantifier-bound variables (they are only meaningful under their binder)
 	var keep []string
 	for _, f := range out {
@@ -602,6 +649,13 @@ func sexprSplit(s string) []string {
 // skolemize strips universal quantifiers in positive position of a goal: their bound
 // variables become fresh constants (the goal is negated in the query).
 func (e *Env) skolemize(goal string) string {
+	if strings.HasPrefix(goal, "(and ") && strings.Contains(goal, "(forall ") {
+		parts := sexprSplit(goal[5 : len(goal)-1])
+		for i := range parts {
+			parts[i] = e.skolemize(parts[i])
+		}
+		return "(and " + strings.Join(parts, " ") + ")"
+	}
 	for {
 		if strings.HasPrefix(goal, "(forall ((") {
 			inner := goal[1 : len(goal)-1]
